@@ -30,9 +30,11 @@ def setup():
     return _ST
 
 
-def grid(ppd: int, fmax_log: float, decades: int = 5):
+def grid(ppd: int, fmax_log: float, decades: int = 5, warp: float = 1.0):
     n = decades * ppd + 1
-    return [10.0 ** (fmax_log - i / ppd) for i in range(n)]
+    if warp == 1.0:
+        return [10.0 ** (fmax_log - i / ppd) for i in range(n)]
+    return [10.0 ** (fmax_log - decades * (i / (n - 1)) ** warp) for i in range(n)]   # same end points and count, non-uniform spacing
 
 
 def generating_parameters(case: dict, taus: Sequence[float]):
@@ -77,12 +79,26 @@ def design_condition(f, taus, case, Z, np, normalise: bool = True) -> float:
 def run_case(case: dict, st=None) -> Tuple[List[dict], Dict[str, Any]]:
     st = st or setup()
     np = st["np"]
-    f = grid(case["ppd"], case["fmax"])
+    if case.get("pre"):
+        # an earlier test in the same process on a related spectrum (same point count and/or end points, other interior / other
+        # impedances): its outcome is not judged here, only that it leaves no trace in the test that follows
+        pc = dict({k: v for k, v in case.items() if k != "pre"}, **case["pre"])
+        fp = grid(pc["ppd"], pc["fmax"], pc.get("dec", 5), pc.get("warp", 1.0))
+        tp = KK.time_constants(fp, pc["num_RC"], pc["lfe"])
+        Zp = KK.model_spectrum(fp, tp, pc["adm"], *generating_parameters(pc, tp))
+        try:
+            st["kk"](st["DataSet"](np.array(fp), np.array(Zp)), test=pc["test"], num_RC=pc["num_RC"], add_capacitance=pc["C"], add_inductance=pc["L"],
+                     admittance=pc["adm"], num_F_ext_evaluations=0, log_F_ext=pc["lfe"], num_procs=1, timeout=600)
+        except Exception:
+            pass
+    f = grid(case["ppd"], case["fmax"], case.get("dec", 5), case.get("warp", 1.0))
     taus = KK.time_constants(f, case["num_RC"], case["lfe"])
     R0, coeffs, C, L = generating_parameters(case, taus)
     Z = KK.model_spectrum(f, taus, case["adm"], R0, coeffs, C, L)
     data = st["DataSet"](np.array(f), np.array(Z))
     cfg = f"{case['test']}|{'Y' if case['adm'] else 'Z'}|C={int(case['C'])}|L={int(case['L'])}"
+    if case.get("pre"):
+        cfg += "|after-a-test-on-another-spectrum(" + ",".join(sorted(case["pre"])) + ")"
     if case["test"] == "cnls":
         cfg += f"|scale={case['scale']:g}"   # the non-linear fit starts from fixed initial values: failures are magnitude specific
     info = {"cond": None, "maxres": None}
@@ -217,6 +233,33 @@ def cases(thorough: bool) -> List[dict]:
                                         continue  # fewer than two data points per unknown: not a well-posed (well-conditioned) test
                                     out.append({"test": test, "adm": adm, "C": C, "L": L, "ppd": ppd, "fmax": fmax, "num_RC": num_RC,
                                                 "lfe": lfe, "signs": signs, "scale": scale})
+    # extreme magnitudes (mOhm .. GOhm level) on one grid
+    for test in KK.LINEAR_TESTS:
+        for adm, C in itertools.product((False, True), (False, True)):
+            for L in ((True,) if test.endswith("-inv") else (False, True)):
+                for num_RC in num_RCs:
+                    for lfe in lfes:
+                        for signs in ("plus", "alternating"):
+                            for scale in ((1e-9, 1e-6, 1e6, 1e9) if thorough else (1e-9, 1e9)):
+                                out.append({"test": test, "adm": adm, "C": C, "L": L, "ppd": 10, "fmax": 4, "num_RC": num_RC, "lfe": lfe,
+                                            "signs": signs, "scale": scale})
+    # call sequences: a test preceded, in the same process, by a test on a related spectrum. Grid variants share the point count (41)
+    # and one or both end points with the base grid; parameter variants share the frequencies
+    GV = {"base": {"ppd": 10, "fmax": 4, "dec": 4, "warp": 1.0}, "other-fmin": {"ppd": 8, "fmax": 4, "dec": 5, "warp": 1.0},
+          "other-fmax": {"ppd": 8, "fmax": 5, "dec": 5, "warp": 1.0}, "other-interior": {"ppd": 10, "fmax": 4, "dec": 4, "warp": 1.6}}
+    PV = {"other-scale": {"scale": 10.0}, "other-signs": {"signs": "alternating"}, "other-num_RC": {"num_RC": 4}, "other-lfe": {"lfe": 0.3},
+          "other-representation": {"adm": None}}
+    for test in KK.LINEAR_TESTS:
+        for adm in (False, True):
+            for C, L in (((False, True), (True, True)) if test.endswith("-inv") else ((False, False), (True, True))):
+                for num_RC in ((3, 6) if thorough else (6,)):
+                    base = {"test": test, "adm": adm, "C": C, "L": L, "num_RC": num_RC, "lfe": 0.0, "signs": "plus", "scale": 1.0}
+                    for a, b in itertools.permutations(GV, 2):
+                        out.append(dict(base, **GV[a], pre=dict(GV[b])))
+                    for a in (GV if thorough else ("base", "other-interior")):
+                        for pv, over in PV.items():
+                            over = {k: ((not adm) if v is None else v) for k, v in over.items()}
+                            out.append(dict(base, **GV[a], pre=over))
     # cnls: num_RC <= 5 only (about 1-2 s each)
     for adm, C, L in itertools.product((False, True), (False, True), (False, True)):
         for num_RC in ((2, 3, 5) if thorough else (3,)):
@@ -232,7 +275,9 @@ def run(ctx) -> None:
     ctx.rule = ("{complex, real, imaginary, complex-inv, real-inv, imaginary-inv} x {Z, Y} x add_capacitance x add_inductance (forced for -inv) x "
                 "num_RC in {2, 5, 15 = 3 per decade} ({2,3,5,8,15} thorough) x log_F_ext in {-0.5, 0, 0.7} (6 values thorough) x 6 frequency grids (3/5/10/20 "
                 "points per decade over 5 decades, three ranges) x sign patterns of R_k/C_k {all +, alternating, one negative} x 5 (7) magnitude "
-                "scales over 6 decades; cnls on 16 (288) configurations with num_RC <= 5 at 2 (4) magnitude scales. Spectra and time "
+                "scales over 6 decades, plus scales 1e-9 and 1e9 (and 1e-6, 1e6 thorough) on one grid; every ordered pair of tests on four grids that share the point count and one or both end points, and pairs "
+                "that share the frequencies but differ in magnitude / signs / num_RC / log_F_ext / representation, run back to back in one process "
+                "(the second one is judged); cnls on 16 (288) configurations with num_RC <= 5 at 2 (4) magnitude scales. Spectra and time "
                 "constants are computed by an independent implementation of eq. 12 / Fig. 1 / Fig. 13. Oracle: max |relative residual| <= 1e-6 "
                 "(cnls 1e-3), time constants equal, generating parameters that influence the spectrum (sensitivity >= 0.1) recovered to 1e-4 where the weighted design matrix has condition <= 1e6.")
     ctx.exhaustive = True
